@@ -1,3 +1,389 @@
-import E3nnVerif.Model.BatchNorm
+import Mathlib.Tactic.IntervalCases
+import E3nnVerif.Theory.BatchNormEquiv
+import E3nnVerif.Theory.BatchNormStat
+import E3nnVerif.Theory.DropoutReal
+/-
+C13 — BatchNorm / Dropout: correct statistics over any call history, always equivariant.
+
+Model: `E3nnVerif/Model/BatchNorm.lean` (`step`, `run`, `dropout`), instantiated at `ℝ`.
+All theorems quantify over every option combination (`Opts ℝ`: irreps layout, eps, momentum, affine, reduce,
+instance, include_bias, normalization), every state (buffers and parameters arbitrary), every call history
+(`List (Op ℝ)`, by induction) and every batch.  The only hypotheses are the guards of the real code
+(`accepted`: non-empty batch, matching last dimension, no empty block; `S ≠ 0`) and, for the value of the
+output statistic, `0 ≤ eps`.
+-/
 namespace E3nnVerif.Props.C13
+open E3nnVerif E3nnVerif.BN Finset
+
+variable (o : Opts ℝ)
+
+/-! ## (1) running statistics = exponential moving average of the training-mode batch statistics -/
+
+theorem step_forward_state (st : State ℝ) (B S dim : Nat) (x : T3 ℝ) :
+    (step o st (.forward B S dim x)).1
+      = if accepted o B dim && S != 0 then (forwardCore o st B S x).1 else st := by
+  simp only [step]
+  cases accepted o B dim <;> cases h : (S == 0) <;> simp [h, bne]
+
+theorem run_runningVar_fold (hinst : o.inst = false) (st : State ℝ) (ops : List (Op ℝ)) {j : Nat}
+    (hj : j < o.irreps.numIrreps) :
+    (run o st ops).1.runningVar j
+      = emaFold o.momentum (st.runningVar j)
+          ((trainedBatches o st.training ops).map fun t => varStat o t.1 t.2.1 t.2.2 j) := by
+  induction ops generalizing st with
+  | nil => rfl
+  | cons op ops ih =>
+    cases op with
+    | train => simpa only [run, step, trainedBatches] using ih { st with training := true }
+    | eval => simpa only [run, step, trainedBatches] using ih { st with training := false }
+    | forward B S dim x =>
+      simp only [run, trainedBatches]
+      rw [ih, step_forward_state]
+      cases hc : (accepted o B dim && S != 0)
+      · simp
+      · cases ht : st.training
+        · simp [forwardCore_frozen o st B S x (Or.inl ht), ht]
+        · have h3 := (forwardCore_other o st B S x).1
+          simp only [Bool.and_self, if_true, h3, ht, List.map_cons, emaFold, List.foldl_cons]
+          rw [forwardCore_runningVar o st B S x ht hinst hj]
+
+theorem run_runningMean_fold (hinst : o.inst = false) (st : State ℝ) (ops : List (Op ℝ)) {j : Nat}
+    (hj : j < o.irreps.numScalar) :
+    (run o st ops).1.runningMean j
+      = emaFold o.momentum (st.runningMean j)
+          ((trainedBatches o st.training ops).map fun t => meanStat o t.1 t.2.1 t.2.2 j) := by
+  induction ops generalizing st with
+  | nil => rfl
+  | cons op ops ih =>
+    cases op with
+    | train => simpa only [run, step, trainedBatches] using ih { st with training := true }
+    | eval => simpa only [run, step, trainedBatches] using ih { st with training := false }
+    | forward B S dim x =>
+      simp only [run, trainedBatches]
+      rw [ih, step_forward_state]
+      cases hc : (accepted o B dim && S != 0)
+      · simp
+      · cases ht : st.training
+        · simp [forwardCore_frozen o st B S x (Or.inl ht), ht]
+        · have h3 := (forwardCore_other o st B S x).1
+          simp only [Bool.and_self, if_true, h3, ht, List.map_cons, emaFold, List.foldl_cons]
+          rw [forwardCore_runningMean o st B S x ht hinst hj]
+
+/-- **running_var after ANY history** (non-instance module): with `u₀ … u_{n-1}` the batch statistics
+`varStat` of exactly those forwards that were accepted and executed in training mode,
+`running_var[j] = (1-m)ⁿ r₀[j] + Σ_{i<n} m (1-m)^{n-1-i} u_i[j]`.
+Eval-mode forwards, rejected forwards and `train()`/`eval()` calls contribute nothing. -/
+theorem running_var_ema (hinst : o.inst = false) (st : State ℝ) (ops : List (Op ℝ)) {j : Nat}
+    (hj : j < o.irreps.numIrreps) :
+    (run o st ops).1.runningVar j
+      = emaClosed o.momentum (st.runningVar j)
+          ((trainedBatches o st.training ops).map fun t => varStat o t.1 t.2.1 t.2.2 j) := by
+  rw [run_runningVar_fold o hinst st ops hj, emaFold_eq_closed]
+
+/-- **running_mean after ANY history**: the same closed form with the batch means `meanStat`
+(mean over the batch AND the middle dimensions of every even-scalar feature). -/
+theorem running_mean_ema (hinst : o.inst = false) (st : State ℝ) (ops : List (Op ℝ)) {j : Nat}
+    (hj : j < o.irreps.numScalar) :
+    (run o st ops).1.runningMean j
+      = emaClosed o.momentum (st.runningMean j)
+          ((trainedBatches o st.training ops).map fun t => meanStat o t.1 t.2.1 t.2.2 j) := by
+  rw [run_runningMean_fold o hinst st ops hj, emaFold_eq_closed]
+
+/-- what `varStat` is, feature `irv + u` of block `blk`: the batch mean of the sample-reduced
+(`mean` or `max` over the middle dimensions) component norm (`sum` or `mean` of squares over the `2l+1`
+components) of the field, centred by the batch mean on even scalars -/
+theorem varStat_at (B S : Nat) (x : T3 ℝ) {blk : Block} (hb : blk ∈ blocks o) {u : Nat} (hu : u < blk.mul) :
+    varStat o B S x (blk.irv + u)
+      = (∑ b ∈ range B,
+          (match o.reduce with
+            | .mean => (∑ s ∈ range S, compNorm o.normalization blk.d (centredBatch o B S x blk) b s u) / S
+            | .max => maxN1 (S - 1) fun s => compNorm o.normalization blk.d (centredBatch o B S x blk) b s u)) / B := by
+  have := cat_at' (f := fun blk => batchStat o B S blk (centredBatch o B S x blk))
+    (layout_irv o.affine o.includeBias o.irreps 0 0 0 0 0 0) hb hu
+  simp only [varStat, blocks]
+  rw [this]
+  simp only [batchStat, sampleStat, reduceS, sumN_real, Scalar.ofNat_real]
+  cases o.reduce <;> simp
+
+/-- what `meanStat` is, feature `irm + u` of an even-scalar block: the mean over batch AND middle dimensions -/
+theorem meanStat_at (B S : Nat) (x : T3 ℝ) {blk : Block} (hb : blk ∈ blocks o) (hs : blk.isScalar = true)
+    {u : Nat} (hu : u < blk.mul) :
+    meanStat o B S x (blk.irm + u) = (∑ b ∈ range B, ∑ s ∈ range S, x b s (blk.ix + u)) / ((B * S : ℕ) : ℝ) := by
+  have hd := (scalar_d o.affine o.includeBias o.irreps 0 0 0 0 0 0 blk hb).2 hs
+  have := cat_at' (f := fun blk => batchMean B S (field x blk))
+    (layout_irm o.affine o.includeBias o.irreps 0 0 0 0 0 0)
+    (List.mem_filter.2 ⟨hb, by simpa using hs⟩) hu
+  simp only [meanStat, blocks]
+  rw [this]
+  simp [batchMean, field, sumN_real, hd]
+
+/-! ## (2) what does not change the state -/
+
+/-- a forward in eval mode leaves the whole state untouched -/
+theorem eval_forward_keeps_state (st : State ℝ) (ht : st.training = false) (B S dim : Nat) (x : T3 ℝ) :
+    (step o st (.forward B S dim x)).1 = st := by
+  rw [step_forward_state]; split
+  · exact forwardCore_frozen o st B S x (Or.inl ht)
+  · rfl
+
+/-- a forward of an instance-norm module leaves the whole state untouched, in training mode too -/
+theorem instance_forward_keeps_state (hinst : o.inst = true) (st : State ℝ) (B S dim : Nat) (x : T3 ℝ) :
+    (step o st (.forward B S dim x)).1 = st := by
+  rw [step_forward_state]; split
+  · exact forwardCore_frozen o st B S x (Or.inr hinst)
+  · rfl
+
+/-- a rejected forward (the call raises) leaves the state untouched -/
+theorem rejected_forward (st : State ℝ) (B S dim : Nat) (x : T3 ℝ) (h : accepted o B dim = false) :
+    step o st (.forward B S dim x) = (st, .error) := by
+  simp [step, h]
+
+/-- NEGATIVE (the code as written): a layout with a zero-multiplicity entry (e.g. `0x1e+2x0e`) or of
+dimension 0 is constructible, but EVERY forward raises, whatever the input and the mode
+(`field.reshape(batch, -1, mul, d)` / `input.reshape(batch, -1, dim)` with zero elements is ambiguous).
+Reproduced on the implementation by harness/c13.py (`BatchNorm.forward/zero-multiplicity`, `…/empty-irreps`). -/
+theorem zero_multiplicity_always_rejected (h : ∃ p ∈ o.irreps, p.1 = 0) (st : State ℝ) (B S dim : Nat) (x : T3 ℝ) :
+    step o st (.forward B S dim x) = (st, .error) := by
+  apply rejected_forward
+  obtain ⟨p, hp, h0⟩ := h
+  have : o.irreps.all (fun p => p.1 != 0) = false := by
+    rw [Bool.eq_false_iff]
+    intro hall
+    have := List.all_eq_true.1 hall p hp
+    simp [h0] at this
+  simp [accepted, this]
+
+theorem empty_irreps_always_rejected (h : o.irreps.dim = 0) (st : State ℝ) (B S dim : Nat) (x : T3 ℝ) :
+    step o st (.forward B S dim x) = (st, .error) := by
+  apply rejected_forward
+  simp only [accepted, h]
+  cases hd : (dim == 0)
+  · simp
+  · have : dim = 0 := by simpa using hd
+    simp [this]
+
+/-- instance-norm module: after ANY history only the training flag may differ from the initial state -/
+theorem instance_history_keeps_state (hinst : o.inst = true) (st : State ℝ) (ops : List (Op ℝ)) :
+    (run o st ops).1 = { st with training := finalTraining st.training ops } := by
+  induction ops generalizing st with
+  | nil => rfl
+  | cons op ops ih =>
+    cases op with
+    | train => simpa only [run, step, finalTraining] using ih { st with training := true }
+    | eval => simpa only [run, step, finalTraining] using ih { st with training := false }
+    | forward B S dim x =>
+      simp only [run, finalTraining]
+      rw [instance_forward_keeps_state o hinst, ih]
+
+/-- parameters are never written; the training flag follows the `train()`/`eval()` calls, after ANY history -/
+theorem history_keeps_parameters (st : State ℝ) (ops : List (Op ℝ)) :
+    (run o st ops).1.weight = st.weight ∧ (run o st ops).1.bias = st.bias ∧
+      (run o st ops).1.training = finalTraining st.training ops := by
+  induction ops generalizing st with
+  | nil => exact ⟨rfl, rfl, rfl⟩
+  | cons op ops ih =>
+    cases op with
+    | train => simpa only [run, step, finalTraining] using ih { st with training := true }
+    | eval => simpa only [run, step, finalTraining] using ih { st with training := false }
+    | forward B S dim x =>
+      simp only [run, finalTraining]
+      obtain ⟨h1, h2, h3⟩ := ih (step o st (.forward B S dim x)).1
+      have hs : (step o st (.forward B S dim x)).1.weight = st.weight ∧
+          (step o st (.forward B S dim x)).1.bias = st.bias ∧
+          (step o st (.forward B S dim x)).1.training = st.training := by
+        rw [step_forward_state]; split
+        · obtain ⟨a, b, c⟩ := forwardCore_other o st B S x; exact ⟨b, c, a⟩
+        · exact ⟨rfl, rfl, rfl⟩
+      rw [h1, h2, h3, hs.1, hs.2.1, hs.2.2]
+      exact ⟨rfl, rfl, rfl⟩
+
+/-! ## (3) eval mode: the affine map of the stored statistics -/
+
+/-- every feature position belongs to exactly one (block, copy, component) — so (3) below describes
+the whole output -/
+theorem features_covered {j : Nat} (hj : j < o.irreps.dim) :
+    ∃ blk ∈ blocks o, ∃ u i, u < blk.mul ∧ i < blk.d ∧ j = blk.ix + u * blk.d + i := cover_ix o hj
+
+/-- **eval-mode output**: the state is unchanged and component `i` of copy `u` of block `blk` is
+`(x − running_mean) · (running_var + eps)^(-1/2) · weight + bias`
+(mean and bias only on even scalars, weight only if affine, bias only if affine and include_bias) -/
+theorem eval_output_affine (st : State ℝ) (ht : st.training = false) (hinst : o.inst = false)
+    (B S dim : Nat) (x : T3 ℝ) (ha : accepted o B dim = true) (hS : S ≠ 0) :
+    ∃ y, step o st (.forward B S dim x) = (st, .tensor B S dim y) ∧
+      ∀ blk ∈ blocks o, ∀ u i, u < blk.mul → i < blk.d → ∀ b s,
+        y b s (blk.ix + u * blk.d + i)
+          = (x b s (blk.ix + u * blk.d + i) - (if blk.isScalar then st.runningMean (blk.irm + u) else 0))
+              * (1 / Real.sqrt (st.runningVar (blk.irv + u) + o.eps)
+                  * (if o.affine then st.weight (blk.iw + u) else 1))
+            + (if o.affine && o.includeBias && blk.isScalar then st.bias (blk.ib + u) else 0) := by
+  refine ⟨(forwardCore o st B S x).2, ?_, ?_⟩
+  · have hS' : (S == 0) = false := by simpa using hS
+    simp only [step, ha, hS', Bool.not_true, Bool.false_eq_true, if_false]
+    rw [forwardCore_frozen o st B S x (Or.inl ht)]
+  · intro blk hb u i hu hi b s
+    exact field_out_eval st B S x hb hu hi ht hinst b s
+
+/-! ## (4) training mode: zero mean, normalised statistic -/
+
+theorem accepted_pos {B dim : Nat} (ha : accepted o B dim = true) : 0 < B := by
+  simp only [accepted, Bool.and_eq_true, bne_iff_ne, ne_eq] at ha
+  omega
+
+/-- **training-mode output** (non-instance): the module's own batch statistics of its output `y` are
+* mean over batch and middle dimensions of every even-scalar feature `= bias` (`0` without bias),
+* reduced squared-norm statistic of every feature `= w² · v / (v + eps)`, `v` the statistic of the input —
+for `reduce = mean` AND `max`, `normalization = norm` AND `component`; and the state moves by `_roll_avg`. -/
+theorem train_output_stats (st : State ℝ) (ht : st.training = true) (hinst : o.inst = false)
+    (B S dim : Nat) (x : T3 ℝ) (ha : accepted o B dim = true) (hS : S ≠ 0) (heps : 0 ≤ o.eps) :
+    ∃ st' y, step o st (.forward B S dim x) = (st', .tensor B S dim y) ∧
+      (∀ j, j < o.irreps.numScalar →
+        meanStat o B S y j = if o.affine && o.includeBias then st.bias j else 0) ∧
+      (∀ j, j < o.irreps.numIrreps →
+        varStat o B S y j = (if o.affine then st.weight j else 1) ^ 2 * varStat o B S x j
+          / (varStat o B S x j + o.eps)) ∧
+      (∀ j, j < o.irreps.numIrreps →
+        st'.runningVar j = (1 - o.momentum) * st.runningVar j + o.momentum * varStat o B S x j) ∧
+      (∀ j, j < o.irreps.numScalar →
+        st'.runningMean j = (1 - o.momentum) * st.runningMean j + o.momentum * meanStat o B S x j) := by
+  have hB := accepted_pos o ha
+  have hS0 : 0 < S := Nat.pos_of_ne_zero hS
+  refine ⟨(forwardCore o st B S x).1, (forwardCore o st B S x).2, ?_, ?_, ?_, ?_, ?_⟩
+  · have hS' : (S == 0) = false := by simpa using hS
+    simp only [step, ha, hS', Bool.not_true, Bool.false_eq_true, if_false]
+  · intro j hj; exact meanStat_out_train st B S x ht hinst hB hS0 hj
+  · intro j hj; exact varStat_out_train st B S x ht hinst hB hS0 heps hj
+  · intro j hj; rw [forwardCore_runningVar o st B S x ht hinst hj]; simp [rollAvg]
+  · intro j hj; rw [forwardCore_runningMean o st B S x ht hinst hj]; simp [rollAvg]
+
+/-- **instance mode** (training flag irrelevant): nothing is stored, and for EVERY sample `b` separately
+the per-sample mean of every even-scalar feature of the output is its bias and the per-sample statistic of
+every feature is `w² · v_b / (v_b + eps)`, `v_b` the per-sample statistic of the input. -/
+theorem instance_output_stats (st : State ℝ) (hinst : o.inst = true)
+    (B S dim : Nat) (x : T3 ℝ) (ha : accepted o B dim = true) (hS : S ≠ 0) (heps : 0 ≤ o.eps) :
+    ∃ y, step o st (.forward B S dim x) = (st, .tensor B S dim y) ∧
+      (∀ b j, j < o.irreps.numScalar →
+        instMeanStat o S y b j = if o.affine && o.includeBias then st.bias j else 0) ∧
+      (∀ b j, j < o.irreps.numIrreps →
+        instVarStat o S y b j = (if o.affine then st.weight j else 1) ^ 2 * instVarStat o S x b j
+          / (instVarStat o S x b j + o.eps)) := by
+  have hS0 : 0 < S := Nat.pos_of_ne_zero hS
+  refine ⟨(forwardCore o st B S x).2, ?_, ?_, ?_⟩
+  · have hS' : (S == 0) = false := by simpa using hS
+    simp only [step, ha, hS', Bool.not_true, Bool.false_eq_true, if_false]
+    rw [forwardCore_frozen o st B S x (Or.inr hinst)]
+  · intro b j hj; exact instMeanStat_out st B S x hinst hS0 b hj
+  · intro b j hj; exact instVarStat_out st B S x hinst hS0 heps b hj
+
+/-- with unit weight (or `affine = False`) and `eps = 0` the output statistic is exactly `1`
+wherever the input statistic does not vanish -/
+theorem train_output_unit_stat (st : State ℝ) (ht : st.training = true) (hinst : o.inst = false)
+    (B S : Nat) (x : T3 ℝ) (hB : 0 < B) (hS : 0 < S) (heps : o.eps = 0) {j : Nat} (hj : j < o.irreps.numIrreps)
+    (hw : o.affine = true → st.weight j = 1) (hv : varStat o B S x j ≠ 0) :
+    varStat o B S (forwardCore o st B S x).2 j = 1 := by
+  rw [varStat_out_train st B S x ht hinst hB hS (by rw [heps]) hj, heps, add_zero]
+  cases ha : o.affine
+  · simp [hv]
+  · simp [hw ha, hv]
+
+/-! ## (5) equivariance in every mode, over whole histories -/
+
+/-- **equivariance**: let `D` be block-diagonal, orthogonal on the `2l+1` components of every irrep block and `1`
+on the even scalars.  Feeding `D x` instead of `x` to every forward of ANY history produces `D y` instead of
+`y` at every call and exactly the same final state (running statistics included) — in training, eval and
+instance mode, for every option combination. -/
+theorem history_equivariant {D : Nat → Nat → Nat → ℝ} (hD : OrthBlocks o D) (st : State ℝ) (ops : List (Op ℝ)) :
+    run o st (ops.map (actOp o D)) = ((run o st ops).1, (run o st ops).2.map (actOut o D)) :=
+  run_equiv hD st ops
+
+/-- single call: `forward (D x) = D (forward x)`, same new state -/
+theorem forward_equivariant {D : Nat → Nat → Nat → ℝ} (hD : OrthBlocks o D) (st : State ℝ) (B S dim : Nat) (x : T3 ℝ) :
+    step o st (.forward B S dim (act o D x))
+      = ((step o st (.forward B S dim x)).1, actOut o D (step o st (.forward B S dim x)).2) :=
+  step_equiv hD st (.forward B S dim x)
+
+/-! ## (6) Dropout -/
+
+/-- eval mode is the identity -/
+theorem dropout_eval (irreps : Irreps) (p : ℝ) (mask : Nat → Nat → Nat → Bool) (x : T3 ℝ) :
+    dropout irreps p false mask x = x := rfl
+
+/-- training mode: every component `i` of copy `u` of block `blk`, at every middle position `s`, is multiplied
+by ONE factor that depends only on (sample, block, copy) -/
+theorem dropout_train (irreps : Irreps) (p : ℝ) (mask : Nat → Nat → Nat → Bool) (x : T3 ℝ) {blk : Block}
+    (hb : blk ∈ dblocks irreps) {u i : Nat} (hu : u < blk.mul) (hi : i < blk.d) (b s : Nat) :
+    dropout irreps p true mask x b s (blk.ix + u * blk.d + i)
+      = x b s (blk.ix + u * blk.d + i) * dropFactor p (mask b blk.k u) := by
+  simp only [dropout, Bool.not_true, Bool.false_eq_true, if_false]
+  rw [dropNoise_at irreps p mask hb b hu hi]
+
+/-- the factor is `0` or `1/(1-p)` for `0 < p < 1`, always `0` for `p ≥ 1`, always `1` for `p ≤ 0` -/
+theorem dropout_factor (p : ℝ) (keep : Bool) :
+    (1 ≤ p → dropFactor p keep = 0) ∧ (p ≤ 0 → dropFactor p keep = 1) ∧
+      (0 < p → p < 1 → dropFactor p keep = if keep then 1 / (1 - p) else 0) :=
+  ⟨fun h => dropFactor_ge_one h keep, fun h => dropFactor_le_zero h keep, fun h0 h1 => dropFactor_mid h0 h1 keep⟩
+
+/-- Dropout commutes with EVERY block-wise linear map (in particular with all of O(3)), for every mask,
+every `p`, in both modes -/
+theorem dropout_equivariant (irreps : Irreps) (p : ℝ) (training : Bool) (mask : Nat → Nat → Nat → Bool)
+    (D : Nat → Nat → Nat → ℝ) (x : T3 ℝ) :
+    dropout irreps p training mask (actB (dblocks irreps) D x)
+      = actB (dblocks irreps) D (dropout irreps p training mask x) :=
+  dropout_actB irreps p training mask D x
+
+/-! ## the hypotheses are satisfiable (non-vacuity) -/
+
+section examples
+
+/-- `2x0e + 1x1o`, default-like options -/
+noncomputable def o₁ : Opts ℝ :=
+  { irreps := [(2, ⟨0, 1⟩), (1, ⟨1, -1⟩)], eps := 1 / 100000, momentum := 1 / 10, affine := true,
+    reduce := .max, inst := false, includeBias := true, normalization := .component }
+
+/-- the cyclic permutation of the three components of the `1o` block, identity on the scalars -/
+noncomputable def D₁ : Nat → Nat → Nat → ℝ := fun k i a =>
+  if k = 0 then (if i = a then 1 else 0) else (if (i + 1) % 3 = a then 1 else 0)
+
+example : blocks o₁ =
+    [⟨0, 2, 1, true, 0, 0, 0, 0, 0⟩, ⟨1, 1, 3, false, 2, 2, 2, 2, 2⟩] := by
+  simp [blocks, blocksFrom, o₁, Irrep.dim, Irrep.isScalar]
+
+example : OrthBlocks o₁ D₁ := by
+  intro blk hb
+  have : blk = ⟨0, 2, 1, true, 0, 0, 0, 0, 0⟩ ∨ blk = ⟨1, 1, 3, false, 2, 2, 2, 2, 2⟩ := by
+    simpa [blocks, blocksFrom, o₁, Irrep.dim, Irrep.isScalar] using hb
+  rcases this with rfl | rfl
+  · refine ⟨?_, fun _ => by simp [D₁]⟩
+    intro a b ha hb
+    have ha' : a = 0 := by simp only at ha; omega
+    have hb' : b = 0 := by simp only at hb; omega
+    subst ha' hb'
+    simp [D₁]
+  · refine ⟨?_, fun h => by simp at h⟩
+    intro a b ha hb
+    simp only at ha hb
+    interval_cases a <;> interval_cases b <;> simp [D₁, Finset.sum_range_succ]
+
+example : accepted o₁ 4 5 = true := by
+  simp [accepted, o₁, Irreps.dim, Irrep.dim]
+
+example : (0 : ℝ) ≤ o₁.eps ∧ o₁.inst = false ∧ 1 < o₁.irreps.numIrreps ∧ 1 < o₁.irreps.numScalar := by
+  refine ⟨by simp [o₁], rfl, by simp [o₁, Irreps.numIrreps], by simp [o₁, Irreps.numScalar, Irrep.isScalar]⟩
+
+/-- a history with two training forwards, an eval forward and a rejected forward in between:
+exactly the two training batches enter the moving average -/
+example (x₁ x₂ x₃ x₄ : T3 ℝ) :
+    (trainedBatches o₁ true [.forward 4 1 5 x₁, .eval, .forward 2 3 5 x₂, .train, .forward 4 1 6 x₃,
+        .forward 1 2 5 x₄]).map (fun t => (t.1, t.2.1))
+      = [(4, 1), (1, 2)] := by
+  simp [trainedBatches, accepted, o₁, Irreps.dim, Irrep.dim]
+
+example : ∃ blk ∈ dblocks [(2, ⟨0, 1⟩), (1, ⟨1, -1⟩)], blk.mul = 1 ∧ blk.d = 3 :=
+  ⟨⟨1, 1, 3, false, 2, 2, 2, 0, 0⟩, by simp [dblocks, blocksFrom, Irrep.dim, Irrep.isScalar], rfl, rfl⟩
+
+example : (0 : ℝ) < 1 / 2 ∧ (1 / 2 : ℝ) < 1 ∧ dropFactor (1 / 2 : ℝ) true = 2 := by
+  refine ⟨by norm_num, by norm_num, ?_⟩
+  rw [dropFactor_mid (by norm_num) (by norm_num)]; norm_num
+
+end examples
+
 end E3nnVerif.Props.C13
